@@ -366,3 +366,23 @@ CHECKS["C16"] = dict(
     instances=dict(quick=_c16, thorough=_c16),
     assumptions=["signatures outside the list are outside the claim"],
 )
+
+# ---------------------------------------------------------------- C04
+CHECKS["C04"] = dict(
+    level="model_checking",
+    claim="On the real Next (line and option cases), textElementsToMarkup, Value.ToString and the markup parser: a line of ELEMS text elements, each a "
+          "literal of 1..2 symbolic plain characters or an inline expression (integral number with symbolic digits, non-integral number from a "
+          "finite set, boolean variable, string, string concatenation), with 0..2 tags: the returned text is the concatenation in order of the "
+          "literals and display forms (integral numbers without decimal point, True/False, strings verbatim), tags in order. Option groups of "
+          "1..OPTS options with condition absent / symbolic boolean / non-boolean / unknown variable: every option listed in order with its text "
+          "and tags, Disabled exactly when its condition is false, an error exactly for non-boolean conditions.",
+    note="Everything the ANTLR lexer decides is outside the claim: which characters survive lexing, backslash escapes, comments, where a hashtag "
+         "starts, whitespace stripping of the source line. The digits of numbers are strconv's (non-integral numbers: finite set, native).",
+    instances=dict(
+        quick=[inst("root", "VHLineRendering", {"ELEMS": 1}, workers=4, must_reach=["line"]),
+               inst("root", "VHLineRendering", {"ELEMS": 2}, workers=8, must_reach=["line"]),
+               inst("root", "VHOptionRendering", {"OPTS": 2}, workers=8, must_reach=["options", "bad-condition"])],
+        thorough=[inst("root", "VHLineRendering", {"ELEMS": 3}, workers=16, must_reach=["line"]),
+                  inst("root", "VHOptionRendering", {"OPTS": 3}, workers=16, must_reach=["options", "bad-condition"])]),
+    assumptions=["literal characters: printable ASCII except [ ] \\\\ : and space at the edges (markup-free, no trimming)", "integral numbers in [-255, 255]"],
+)
